@@ -93,6 +93,7 @@ func (w *World) mac(domain string, id []byte, height uint64, content []byte) []b
 type FakeKeyManager struct {
 	w  *World
 	me []byte
+	VerifyGate func(sender []byte) // optional: called at the start of every VerifyConsensusMessage (to hold a validation at a chosen signer)
 }
 
 func (k *FakeKeyManager) SignAs(id []byte, height uint64, content []byte) []byte {
@@ -108,6 +109,9 @@ func (k *FakeKeyManager) SignConsensusMessage(ctx context.Context, blockHeight p
 }
 
 func (k *FakeKeyManager) VerifyConsensusMessage(blockHeight primitives.BlockHeight, content []byte, sender *protocol.SenderSignature) error {
+	if g := k.VerifyGate; g != nil {
+		g(sender.MemberId())
+	}
 	if !bytes.Equal(k.w.mac("msg", sender.MemberId(), uint64(blockHeight), content), sender.Signature()) {
 		return errors.New("bad signature")
 	}
